@@ -29,6 +29,8 @@ pub struct GenCfg {
     pub drop_weight: u32,
     /// task-to-task channels
     pub chans: bool,
+    /// select / select-then-keep
+    pub select: bool,
     /// per cent of the universes whose first program is put behind a pending first part:
     /// `then(task awaiting a request, abortable(program))` - the shape in which a command can be
     /// aborted before it has been started
@@ -37,10 +39,10 @@ pub struct GenCfg {
 
 impl GenCfg {
     pub fn standard() -> Self {
-        GenCfg { depth: 3, max_acts: 30, abortable: true, task_aborts: true, retaining: true, legacy: false, again_weight: 2, start_weight: 1, wrap: false, scale: true, garbage_weight: 0, abort_weight: 1, drop_weight: 3, chans: true, behind_then: 4 }
+        GenCfg { depth: 3, max_acts: 30, abortable: true, task_aborts: true, retaining: true, legacy: false, again_weight: 2, start_weight: 1, wrap: false, scale: true, garbage_weight: 0, abort_weight: 1, drop_weight: 3, chans: true, select: true, behind_then: 4 }
     }
     pub fn legacy() -> Self {
-        GenCfg { depth: 3, max_acts: 30, abortable: false, task_aborts: false, retaining: false, legacy: true, again_weight: 2, start_weight: 1, wrap: false, scale: true, garbage_weight: 0, abort_weight: 1, drop_weight: 3, chans: true, behind_then: 4 }
+        GenCfg { depth: 3, max_acts: 30, abortable: false, task_aborts: false, retaining: false, legacy: true, again_weight: 2, start_weight: 1, wrap: false, scale: true, garbage_weight: 0, abort_weight: 1, drop_weight: 3, chans: true, select: true, behind_then: 4 }
     }
 }
 
@@ -82,8 +84,8 @@ fn block(cfg: GenCfg) -> BoxedStrategy<Vec<Stmt>> {
             1 => (2u8..5, inner.clone()).prop_map(|(n, b)| Stmt::Fan(n, b)),
             (if cfg.scale { 1 } else { 0 }) => (33u8..45, big_fan_body(cfg)).prop_map(|(n, b)| Stmt::Fan(n, b)),
             1 => prop::collection::vec(inner.clone(), 1..4).prop_map(Stmt::JoinN),
-            1 => prop::collection::vec(inner.clone(), 1..4).prop_map(Stmt::Select),
-            (if cfg.retaining || cfg.legacy { 1 } else { 0 }) => prop::collection::vec(inner.clone(), 2..4).prop_map(Stmt::SelectKeep),
+            (if cfg.select { 1 } else { 0 }) => prop::collection::vec(inner.clone(), 1..4).prop_map(Stmt::Select),
+            (if cfg.select && (cfg.retaining || cfg.legacy) { 1 } else { 0 }) => prop::collection::vec(inner.clone(), 2..4).prop_map(Stmt::SelectKeep),
         ];
         prop::collection::vec(st, 1..5)
     })
